@@ -369,12 +369,19 @@ def crossing(ctx):
     res.saw(f)
     ev, info, sym = _ret_eval(P, f)
     want = C(2) * (A('YA[-1]') + A('UA[-1]') * A('XPL()'))
-    if isinstance(ev.returned, Rat) and sym.eq(ev.returned, want):
-        res.ok('XPD == 2 (ya[-1] + ua[-1] XPL)')
+    # a diameter is a magnitude (|pupil magnification| x stop diameter in
+    # matrix optics): the value is |want|, i.e. its square is want^2 and it
+    # carries the sign factor of an absolute value
+    ret = ev.returned
+    if isinstance(ret, Rat) and sym.eq(ret * ret, want * want) and \
+            any(a_.startswith('sgn') for a_ in ret.atoms()):
+        res.ok('XPD == 2 |ya[-1] + ua[-1] XPL|')
     else:
         res.fail(ctx.finding('CROSSING', f, f.node,
-                             f'XPD = {ev.returned} is not twice the marginal '
-                             f'ray height propagated to the exit pupil',
+                             f'XPD = {ev.returned} is not twice the magnitude of '
+                             f'the marginal ray height propagated to the exit '
+                             f'pupil (a negative diameter makes the pupil '
+                             f'magnification XPD/EPD negative)',
                              construct='XPD'))
     # principal / nodal planes
     for name, want in (('P1', A('F1()') - A('f1()')),
@@ -462,7 +469,9 @@ def signed_return(ctx):
     res = Result('SIGNED-RETURN', 'no sign-erasing operation (abs, sqrt of a '
                  'square) on the value returned by a cardinal / pupil function')
     for name in ('f1', 'f2', 'F1', 'F2', 'P1', 'P2', 'N1', 'N2', 'EPL', 'XPL',
-                 'EPD', 'XPD', 'magnification', 'invariant', 'FNO'):
+                 'EPD', 'magnification', 'invariant', 'FNO'):
+        # XPD is not in the list: a diameter is a magnitude (CROSSING checks
+        # that it is exactly |2 (ya + ua XPL)|)
         f = P.func('Paraxial.' + name)
         res.saw(f)
         bad = None
